@@ -116,6 +116,11 @@ def events_for_case(o, cid, g, cuts, ids):
     s2 = sd.new_event(ev, o2, g, h=2)
     if s2 is not None:
         auc_event(ev, s2, 2, [(Fraction(0), Fraction(1), "fpr", "tpr")])
+    if cid % 2 == 1 and not g.name.startswith("ulp"):
+        # history: a score array of the first (already queried) object is re-bound to a new array
+        o3 = sd.set_scores_event(ev, s, o, g, cls_=["neg", "pos"][(cid // 2) % 2], h=1)
+        if o3 is not None:
+            auc_event(ev, s, 1, queries(cuts, cid)[:12])
     if cid % 2 == 0:
         # history: another configuration is assigned to the first (already queried) object
         o3 = sd.set_config_event(ev, s, o, g, h=1, k=cid // 2)
